@@ -48,7 +48,7 @@
 
   A {template} tag inside a body is outside both the fragment (`cfrag`) and the model (Model/Eval.lean header:
   `error`; checked on the real code by the C02exec family `nested-template-tag(impl-only)`); a /** */ comment
-  inside a body (renders nothing, /repo 79017f3) is in the model but `unspec` in the specification.
+  inside a body renders nothing on both sides (/repo 79017f3) and is part of the fragment.
 
   `$ij` (the injected data, the same in every template of the render) is inside: `render_refines_lexical_partial`
   takes the specification's injected bindings to be the interpreter's (`hij`).
@@ -122,6 +122,7 @@ def cfrag : Cmd → Bool
   | .letValue _ _ e => frag e
   | .letContent _ _ b => bfrag b
   | .headerParam _ _ _ _ _ _ => true
+  | .soyDoc _ _ => true
   | _ => false
 def bfrag : Block → Bool
   | .mk _ cs => csFrag cs
@@ -1380,6 +1381,9 @@ theorem cmd_agree : (c : Cmd) → cfrag c = true → ∀ (ctx : Scope) (st : St)
   | .headerParam _ _ _ _ _ _, _, ctx, st, env, hr, _, _ => by
     rw [execCmd, Spec.Eval.renderCmd]
     exact ⟨rfl, by simp, hr⟩
+  | .soyDoc _ _, _, ctx, st, env, hr, _, _ => by
+    rw [execCmd, Spec.Eval.renderCmd]
+    exact ⟨rfl, by simp, hr⟩
   | .print pos arg dirs, hf, ctx, st, env, hr, _, _ => by
     simp only [cfrag, Bool.and_eq_true] at hf
     obtain ⟨hfa, hfd⟩ := hf
@@ -1762,7 +1766,6 @@ theorem cmd_agree : (c : Cmd) → cfrag c = true → ∀ (ctx : Scope) (st : St)
           st.heap.length sc entry own0 (by simp) (fun x hx => by have := hlt0 x hx; simp; omega) hp hr.base.globals hrel)
   | .namespace .., hf, _, _, _, _, _, _ => by simp [cfrag] at hf
   | .template .., hf, _, _, _, _, _, _ => by simp [cfrag] at hf
-  | .soyDoc .., hf, _, _, _, _, _, _ => by simp [cfrag] at hf
 /-- a block: `walkBlock` against the specification's `renderBlock` -/
 theorem body_agree : (b : Block) → bfrag b = true → ∀ (ctx : Scope) (st : St) (env : Spec.Eval.Env),
     Rel g entry ctx st env → ScopeOk ctx st →
